@@ -228,6 +228,9 @@ def compare(impl, mod):
 def evaluate(ctx, cases, results, use_model=True):
     live = [(c, r) for c, r in zip(cases, results) if 'skip' not in r]
     for c, r in zip(cases, results):
+        if 'skip' in r:
+            k = 'skipped:' + r['skip'].split(':')[0].split('(')[0][:24]
+            ctx.hist[k] = ctx.hist.get(k, 0) + 1
         if 'skip' in r and r['skip'].startswith('harness'):
             ctx.tie_break('harness failure: ' + r['skip'], c)
     mods = None
